@@ -1077,8 +1077,8 @@ func (s *sim) reconcile(x *expect, ctx string) {
 		if it == nil {
 			continue
 		}
-		if _, old := s.pending[h]; !old && seenH > it.evH {
-			s.late[h] = true
+		if _, old := s.late[h]; !old {
+			s.late[h] = seenH > it.evH
 		}
 		if it.evH > s.maxSeenH {
 			s.maxSeenH = it.evH
